@@ -78,7 +78,8 @@ def _perms(recs: List[Rec], max_full: int) -> Iterator[Tuple[str, List[Rec]]]:
             if list(p) != list(range(n)):
                 yield "permute", [recs[i] for i in p]
     else:
-        for i in range(n - 1):
+        idx = range(n - 1) if n <= 40 else sorted({0, 1, n // 2, n - 3, n - 2})
+        for i in idx:
             r = list(recs)
             r[i], r[i + 1] = r[i + 1], r[i]
             yield "permute-adjacent", r
@@ -93,6 +94,15 @@ def _alt_payload(r: Rec):
     if r.wt == wire.FIXED64:
         return bytes([r.payload[0] ^ 1]) + r.payload[1:]
     return None
+
+
+def _sel(recs):
+    """(index, record) pairs the per-record operators are applied to: every record of an ordinary
+    message; first, second, middle and last of a size-boundary value with dozens of records."""
+    n = len(recs)
+    if n <= 16:
+        return list(enumerate(recs))
+    return [(i, recs[i]) for i in sorted({0, 1, n // 2, n - 1})]
 
 
 def _high_bit_variants(base: str, val: int):
@@ -115,7 +125,7 @@ def rewrites_once(schema: Schema, m: Optional[Msg], recs: List[Rec], max_full: i
     # 1. reorderings
     yield from _perms(recs, max_full)
     # 2. packed <-> unpacked, chunk splits, mixed
-    for i, r in enumerate(recs):
+    for i, r in _sel(recs):
         f = fields.get(r.number)
         if f is None or f.card != "repeated" or f.base not in PACKABLE:
             continue
@@ -124,23 +134,26 @@ def rewrites_once(schema: Schema, m: Optional[Msg], recs: List[Rec], max_full: i
             unp = [elem_rec(r.number, f.kind, c) for c in chunks]
             yield "unpack", recs[:i] + unp + recs[i + 1:]
             n = len(chunks)
-            for a in range(0, n + 1):
+            # every split point for short lists; for long ones (size-boundary values) the points
+            # next to the ends, the middle and the 127/128 boundary
+            pts = list(range(0, n + 1)) if n <= 16 else sorted({0, 1, 2, 127, 128, n // 2, n - 2, n - 1, n})
+            for a in pts:
                 if 0 < a < n or (n >= 1 and a in (0, n)):
                     # 2-way split (a may be 0 or n: an empty chunk is legal)
                     parts = [b"".join(chunks[:a]), b"".join(chunks[a:])]
                     yield "split2", recs[:i] + [wire.make_rec(r.number, wire.LEN, p) for p in parts] + recs[i + 1:]
-            for a in range(1, n):
-                for b in range(a + 1, n):
+            for a in [p for p in pts if 1 <= p < n]:
+                for b in [p for p in pts if a + 1 <= p < n]:
                     parts = [b"".join(chunks[:a]), b"".join(chunks[a:b]), b"".join(chunks[b:])]
                     yield "split3", recs[:i] + [wire.make_rec(r.number, wire.LEN, p) for p in parts] + recs[i + 1:]
-            for a in range(1, n):
+            for a in [p for p in pts if 1 <= p < n]:
                 # leading a elements unpacked, rest packed -- and the converse
                 yield "mixed-unpacked-then-packed", (
                     recs[:i] + unp[:a] + [wire.make_rec(r.number, wire.LEN, b"".join(chunks[a:]))] + recs[i + 1:])
                 yield "mixed-packed-then-unpacked", (
                     recs[:i] + [wire.make_rec(r.number, wire.LEN, b"".join(chunks[:a]))] + unp[a:] + recs[i + 1:])
     # 2b. non-minimal varints INSIDE a packed payload (each varint element in turn)
-    for i, r in enumerate(recs):
+    for i, r in _sel(recs):
         f = fields.get(r.number)
         if f is None or f.card != "repeated" or f.base not in PACKABLE or r.wt != wire.LEN:
             continue
@@ -148,13 +161,15 @@ def rewrites_once(schema: Schema, m: Optional[Msg], recs: List[Rec], max_full: i
             continue
         chunks = split_packed(f.kind, r.payload)
         for j, c in enumerate(chunks):
+            if len(chunks) > 16 and j not in (0, 1, len(chunks) // 2, len(chunks) - 1):
+                continue
             val, _ = wire.dec_varint(c, 0)
             for pad in sorted({len(c) + 1, len(c) + 2, 10}):
                 if len(c) < pad <= 10:
                     padded = chunks[:j] + [wire.enc_varint(val, pad)] + chunks[j + 1:]
                     yield "pad-packed-element", recs[:i] + [wire.make_rec(r.number, wire.LEN, b"".join(padded))] + recs[i + 1:]
     # 3. non-minimal varints: tag, length, value of each record in turn
-    for i, r in enumerate(recs):
+    for i, r in _sel(recs):
         tl = len(wire.tag(r.number, r.wt))
         for pad in sorted({tl + 1, tl + 2, 5, 10}):
             if pad > tl:
@@ -172,7 +187,7 @@ def rewrites_once(schema: Schema, m: Optional[Msg], recs: List[Rec], max_full: i
     # 3b. 32-bit varint kinds carried in a 64-bit varint: decoders truncate to 32 bits, so a
     #     negative int32 / enum without its sign extension (5 bytes instead of 10) and a value with
     #     arbitrary bits above bit 31 denote the same field value (the reference decides)
-    for i, r in enumerate(recs):
+    for i, r in _sel(recs):
         f = fields.get(r.number)
         if f is None or f.card == "map" or f.base not in ("int32", "uint32", "sint32", "enum", "bool"):
             continue
@@ -182,12 +197,14 @@ def rewrites_once(schema: Schema, m: Optional[Msg], recs: List[Rec], max_full: i
         elif r.wt == wire.LEN and f.card == "repeated":
             chunks = split_packed(f.kind, r.payload)
             for j, c in enumerate(chunks):
+                if len(chunks) > 16 and j not in (0, 1, len(chunks) // 2, len(chunks) - 1):
+                    continue
                 val, _ = wire.dec_varint(c, 0)
                 for lab, alt in _high_bit_variants(f.base, val):
                     padded = chunks[:j] + [wire.enc_varint(alt)] + chunks[j + 1:]
                     yield lab + "-packed", recs[:i] + [wire.make_rec(r.number, wire.LEN, b"".join(padded))] + recs[i + 1:]
     # 4. duplicated singular scalar with a different earlier value (last wins)
-    for i, r in enumerate(recs):
+    for i, r in _sel(recs):
         f = fields.get(r.number)
         if f is None or f.card in ("repeated", "map"):
             continue
@@ -202,7 +219,7 @@ def rewrites_once(schema: Schema, m: Optional[Msg], recs: List[Rec], max_full: i
     if m:
         for g, members in m.groups.items():
             nums = {f.number: f for f in members}
-            for i, r in enumerate(recs):
+            for i, r in _sel(recs):
                 if r.number not in nums:
                     continue
                 for sib in members:
@@ -212,12 +229,13 @@ def rewrites_once(schema: Schema, m: Optional[Msg], recs: List[Rec], max_full: i
                     if sr is not None:
                         yield "oneof-earlier-sibling", recs[:i] + [sr] + recs[i:]
     # 6. unknown record of each wire type at each gap
+    gaps = range(len(recs) + 1) if len(recs) <= 40 else sorted({0, 1, len(recs) // 2, len(recs) - 1, len(recs)})
     for u in unknown_recs():
-        for gap in range(len(recs) + 1):
+        for gap in gaps:
             yield "unknown-interleaved", recs[:gap] + [u] + recs[gap:]
     # 7. rewrites inside nested messages / map entries (one level per step)
     if depth < 2:
-        for i, r in enumerate(recs):
+        for i, r in _sel(recs):
             f = fields.get(r.number)
             if f is None or r.wt != wire.LEN:
                 continue
@@ -273,7 +291,9 @@ def reencodings(schema: Schema, m: Msg, data: bytes, depth: int, max_full: int,
                 seen.add(b)
                 lab = f"{label}+{name}" if label else name
                 yield lab, b
-                if d + 1 < depth:
+                if d + 1 < depth and len(rw) <= 40 and len(b) <= 4096:
+                    # (size-boundary values are re-encoded with ONE operator only: a second layer over
+                    # thousands of records adds cost, not shapes)
                     nxt.append((lab, rw))
                 if len(seen) > cap:
                     return
